@@ -46,6 +46,10 @@ var c16defects = []c16defect{
 		c.Services = append(c.Services, Service{Name: "svShared", Constructor: P("NewT"), Args: []any{"@svCtx"}, Scope: P("shared")},
 			Service{Name: "svCtx", Constructor: P("NewT"), Scope: P("contextual")})
 	}, `"svShared"`},
+	{"scope-next-to-missing", "scope", func(c *Cfg) {
+		c.Services = append(c.Services, Service{Name: "smShared", Constructor: P("NewT"), Args: []any{"@aaaMissing", "@smCtx", "@zzzMissing", "%aaaGone%"}, Scope: P("shared")},
+			Service{Name: "smCtx", Constructor: P("NewT"), Scope: P("contextual")})
+	}, `"smShared"`},
 	{"grammar", "grammar", func(c *Cfg) {
 		c.Services = append(c.Services, Service{Name: "1bad", Constructor: P("NewT")})
 	}, `"1bad"`},
@@ -75,7 +79,7 @@ func init() {
 	Register(&Check{
 		ID:    "C16",
 		Level: "exploration",
-		Rule: "all subsets of size <= k (k=5 quick, all 1024 subsets thorough) of 10 injected defects {missing param x3 positions, missing service x3 positions, param cycle, service cycle, scope violation, grammar violation} x the 4 combinations of --ignore-missing-params / --ignore-missing-services; " +
+		Rule: "all subsets of size <= k (k=5 quick, all 1024 subsets thorough) of 11 injected defects {missing param x3 positions, missing service x3 positions, param cycle, service cycle, scope violation, scope violation on a service that also has missing dependencies, grammar violation} x the 4 combinations of --ignore-missing-params / --ignore-missing-services; " +
 			"non-trivial = at least one defect and at least one flag set; distinct = distinct (defect set, flags)",
 		Assumptions: []string{
 			"diagnostic classes are told apart by the rule prefix the tool prints; lines are compared as ordered lists between flag combinations",
